@@ -279,7 +279,25 @@ def user_trace(events, label='p'):
             out.append(['step', event[2], event[3], event[4], event[6]])  # name, args, kwargs, status
         elif event[0] == 'resumed' and event[1] == label:
             out.append(['resumed', event[2], event[3], event[5]])
+        elif event[0] == 'wstep' and event[1] == label:
+            out.append(['wstep', event[2], event[3], event[5]])  # outline step, context it saw, status it saw
+        elif event[0] == 'pred' and event[1] == label:
+            out.append(['pred', event[2], event[3]])
     return out
+
+
+def gen_workchain_with_awaitables(rng):
+    """A generated outline in which some steps hand bare futures to the context (the environment completes them)."""
+    from simkit import wcprograms
+
+    program = wcprograms.gen_outline(rng, {'max_depth': 2, 'max_len': 3})
+    fut = 0
+    for name, step in program['steps'].items():
+        if step.get('ret') is None and rng.random() < 0.45 and fut < 3:
+            step['effects'].append({'e': 'toctx', 'key': f'f{fut}', 'ref': {'fut': fut}})
+            fut += 1
+    program['n_futures'] = fut
+    return program
 
 
 def outcome(proc):
